@@ -1,6 +1,7 @@
 package main
 
 import (
+	"berty.tech/go-ipfs-log/entry"
 	"context"
 	"fmt"
 	cid "github.com/ipfs/go-cid"
@@ -263,8 +264,13 @@ func (r *lcRun) run(b Behaviour, idx int) {
 		if wedged {
 			return // a call on the instance never returned: closing it would hang this process too
 		}
-		_ = r.inst.Close()
-		_ = r.rem.Close()
+		done := make(chan struct{})
+		go func() { _ = r.inst.Close(); _ = r.rem.Close(); close(done) }()
+		select {
+		case <-done:
+		case <-time.After(8 * time.Second):
+			// the instance does not close: the goroutine stays behind, the next moment starts on a new world
+		}
 	}()
 	ctx := context.Background()
 	last := b.Steps[len(b.Steps)-1].State
@@ -459,9 +465,43 @@ func (r *lcRun) run(b Behaviour, idx int) {
 		if !hung && err != nil {
 			r.violate("sibling", fmt.Sprintf("after %s of one database the sibling database cannot be written: %v", kind, err))
 		}
+		// ... and still replicates: a chain of 150 entries of the remote peer (several hundred replicator events on the bus the
+		// closed store shared with it)
+		if !hung && idx%4 == 1 {
+			r.res.Comparisons++
+			r.res.Stats["sibling_replications_after_close"]++
+			next, t := []cid.Cid{}, 10
+			var head *entry.Entry
+			for i := 0; i < 150; i++ {
+				e, err := mkEntry(ctx, r.rem, r.rem.DB.Identity(), r.sib.Addr, opPayload("log", fmt.Sprintf("chain-%d", i)), next, t)
+				if err != nil {
+					r.res.Inconclusive = append(r.res.Inconclusive, b.ID+": chain: "+err.Error())
+					return
+				}
+				head, next, t = e, []cid.Cid{e.GetHash()}, t+1
+			}
+			before := r.sib.S.OpLog().Len()
+			_, hung := r.watchdog("Sync of the sibling database", 6*time.Second, func() error { return r.sib.S.Sync(ctx, []ipfslog.Entry{head}) })
+			if hung {
+				wedged = true
+				return
+			}
+			deadline := time.Now().Add(15 * time.Second)
+			for r.sib.S.OpLog().Len() < before+150 && time.Now().Before(deadline) {
+				time.Sleep(20 * time.Millisecond)
+			}
+			if got := r.sib.S.OpLog().Len() - before; got < 150 {
+				r.violate("sibling", fmt.Sprintf("after %s of one database the sibling database replicated %d of 150 entries and stopped", kind, got))
+				wedged = true // emitters of the instance may be blocked for good: closing it would hang
+				return
+			}
+		}
 	}
 	// reopen the directory
-	_ = r.inst.Close()
+	if _, hung := r.watchdog("Close of the instance after "+kind, 8*time.Second, func() error { return r.inst.Close() }); hung {
+		wedged = true
+		return
+	}
 	if !instanceWide {
 		// closing the instance after one of its databases was closed: everything the instance started ends
 		deadline := time.Now().Add(4 * time.Second)
